@@ -25,7 +25,7 @@ func c08Entries(P *Program) []*ssa.Function {
 // allowedPanics: explicit panics that may be reachable from the verification entry points, with reason.
 var allowedPanics = map[string]string{
 	"common.HashCommit":         "asn1.Marshal of booleans and non-nil *big.Int cannot fail; the hashed values are computed by the verifier itself",
-	"revocation.(*Event).hash": "only for an unsupported hash algorithm constant",
+	"revocation.hash": "only for an unsupported hash algorithm constant",
 	"zkproof.(*Group).Exp":     "call-graph imprecision: Group is placed in base lookups only by keyproof (checked under C17); revocation and range proofs build their lookups from the public key and the proof",
 }
 
@@ -47,10 +47,10 @@ func panicReason(p *ssa.Panic) (string, bool) {
 		switch n := calleeName(c); {
 		case n == "encoding/asn1.Marshal" || n == "asn1.Marshal":
 			return allowedPanics["common.HashCommit"], true
-		case n == "revocation.(*Event).hashUsingAlg" || n == "revocation.checkHashAlg" || strings.HasSuffix(n, "go-multihash.Sum"):
+		case n == "revocation.hashUsingAlg" || n == "revocation.checkHashAlg" || strings.HasSuffix(n, "go-multihash.Sum"):
 			for _, arg := range c.Call.Args {
 				if _, isConst := arg.(*ssa.Const); isConst && isIntegerType(arg.Type()) && arg.Type().String() != "int" {
-					return allowedPanics["revocation.(*Event).hash"], true
+					return allowedPanics["revocation.hash"], true
 				}
 			}
 		}
@@ -281,7 +281,7 @@ func lookupNamesRule(P *Program, R *Report) {
 	sort.Strings(missing)
 	R.decide(rule, "revocation.proofstructure:secret-names", "every secret name used by the revocation proof structure is one whose response the structure check tests", len(missing) == 0 && len(secrets) >= 5 && len(names) >= 5,
 		fmt.Sprintf("structure uses %v, checked names %v, missing %v", sortedKeys(secrets), sortedKeys(names), missing), P.Pos(ini.Pos()))
-	if vs := mustFunc(P, R, rule, "revocation.(*proofStructure).verifyProofStructure"); vs != nil {
+	if vs := mustFunc(P, R, rule, "revocation.verifyProofStructure"); vs != nil {
 		fa := &ForAll{P: P, Spec: ForAllSpec{Coll: is("global:revocation.secretNames"), Body: func(f *ssa.Function, l *Loop) *MustPass {
 			return &MustPass{Match: func(a Atom) bool {
 				return desc(a.V) == "<revocation.Proof>.Responses[global:revocation.secretNames[#i]]" && a.Want == NonNil
@@ -299,7 +299,7 @@ func lookupNamesRule(P *Program, R *Report) {
 	// the revocation verifier runs the structure check before the contributions are computed from the proof
 	if vwc := mustFunc(P, R, rule, "revocation.(*Proof).VerifyWithChallenge"); vwc != nil {
 		mp(P, R, rule, FuncKey(vwc)+":structure-first", "accept => the structure check passed", vwc, AcceptTrue(0), &MustPass{Match: func(a Atom) bool {
-			_, ok := callAtom(a, True, "revocation.(*proofStructure).verifyProofStructure")
+			_, ok := callAtom(a, True, "revocation.verifyProofStructure")
 			return ok
 		}})
 	}
